@@ -406,7 +406,7 @@ def corr_failing(ctx, cases, tag):
             obs.append(("ok", impl_run(c)))
         except Exception as e:  # noqa: BLE001
             obs.append(("err", impl.err_enum(e), repr(e)[:300]))
-    vals = run_coq_cases(ctx.work / tag, [coq_expr(c) for c in cases], IMPORTS, shard=40)
+    vals = run_coq_cases(ctx.work / tag, [coq_expr(c) for c in cases], IMPORTS, shard=40 if len(cases) < 2000 else 120)
     out = []
     for c, o, v in zip(cases, obs, vals):
         if o[0] == "err":
